@@ -47,6 +47,29 @@ class ParserModel:
                     cands.append((fld, f))
         if cands:
             self.cursor_field, self.bump = cands[0]
+        # the other primitives, by signature (private names are free to change):
+        #   peekers   fn(&self) -> Option<TokenKind>             what is under the cursor
+        #   checkers  fn(&self, TokenKind) -> bool               is the token under the cursor of this kind
+        #   expecters fn(&mut self, TokenKind) -> bool           consume it if it is, and they reach `bump`
+        #   wrappers  fn(&mut self, SyntaxKind, FnOnce)          run a closure between start_node and finish_node
+        self.peekers, self.checkers, self.expecters, self.wrappers = set(), set(), set(), set()
+        for f in self.fns:
+            if f.kind != "assoc" or f.d["argc"] < 1 or PARSER_TY_MARK not in f.local_ty(1):
+                continue
+            rt = f.local_ty(0)
+            a1 = f.local_ty(1)
+            tys = [f.local_ty(i) for i in range(2, f.d["argc"] + 1)]
+            if not a1.startswith("&mut") and f.d["argc"] == 1 and "Option<" in rt and rt.endswith("TokenKind>"):
+                # the token *at* the cursor: no arithmetic on the cursor, no look-behind / look-ahead helper
+                arith = any(st[KIND] == "a" and st[5][0] == "bin" and st[5][1] in ("sub", "sub_ov", "add", "add_ov") for _, st in f.all_stmts()) or any((callee(t) or "").split("::")[-1] in ("checked_sub", "saturating_sub", "checked_add") or ((callee(t) or "") in self.by_path and (callee(t) or "") != f.path and self.by_path[callee(t)].d["argc"] > 1) for _, t in f.calls())
+                if not arith:
+                    self.peekers.add(f.path)
+            if not a1.startswith("&mut") and f.d["argc"] == 2 and rt == "bool" and tys[0].endswith("TokenKind"):
+                self.checkers.add(f.path)
+            if a1.startswith("&mut") and f.d["argc"] == 2 and rt == "bool" and tys[0].endswith("TokenKind") and self.bump is not None and any((callee(t) or "") == self.bump.path for _, t in f.calls()):
+                self.expecters.add(f.path)
+            if a1.startswith("&mut") and any(ty.endswith("SyntaxKind") for ty in tys) and any("call_once" in (callee(t) or "") for _, t in f.calls()) and any((callee(t) or "").endswith("GreenTreeBuilder::finish_node") for _, t in f.calls()):
+                self.wrappers.add(f.path)
 
     def takes_mut_parser(self, name):
         f = self.by_path.get(name)
@@ -78,7 +101,7 @@ class ParserModel:
     def mutating(self, name, args):
         if self.takes_mut_parser(name):
             return True
-        if name.endswith("::emit_node"):
+        if name in self.wrappers:
             return True
         # closures of the parser invoked through FnOnce
         if "call_once" in name or "call_mut" in name:
@@ -111,10 +134,10 @@ class ParserModel:
                 src = x[1][1]
                 while src[0] in ("ref", "deref"):
                     src = src[1]
-                if src[0] == "call" and src[1].endswith("::peek") and len(src) > 3 and src[3] == epoch:
+                if src[0] == "call" and src[1] in self.peekers and len(src) > 3 and src[3] == epoch:
                     return self.kind_by_discr.get(str(v))
         # check(K) == true
-        if c[0] == "call" and c[1].endswith("::check") and len(c) > 3 and c[3] == epoch:
+        if c[0] == "call" and c[1] in self.checkers and len(c) > 3 and c[3] == epoch:
             truth = (pos and v == 1) or ((not pos) and tuple(v) == (0,))
             if truth and len(c[2]) >= 2:
                 k = c[2][1]
@@ -138,12 +161,12 @@ class ParserModel:
             return True
         if depth > 5:
             return False
-        if name.endswith("::emit_node") or "call_once" in name:
+        if name in self.wrappers or "call_once" in name:
             c = self.closure_arg(args)
             if c:
                 return self.advances_fn(c, kind, depth + 1)
             return False
-        if name.endswith("Parser::<'a>::expect") or name.endswith("::expect") and self.takes_mut_parser(name):
+        if name in self.expecters:
             k = args[1] if len(args) > 1 else None
             if k and k[0] == "agg" and "TokenKind::" in k[1]:
                 return kind is not None and k[1].rsplit("::", 1)[1] == kind
